@@ -183,6 +183,37 @@ def curveOk (a : Algs) (curve : Nat) : Bool :=
 def rsaOk (a : Algs) (bits : Nat) (sfl : Nat) : Bool :=
   a.enabled.contains 1 && (rsaSizes.any (fun (b, s) => b == bits && s ≤ sfl)) && decide (bits ≥ minSizeOf a 1)
 
+/-! ### Attributes (`RuntimeAttributes.c`) -/
+
+/-- `RuntimeAttributesSetProfile`: a comma-separated list of attribute names, each known and allowed at this
+    StateFormatLevel; `none` = refused. Returns the union of the flags and the StateFormatLevel the attributes need. -/
+def attrToken (acc : Nat × Nat) (tok : String) (maxSfl : Nat) : Option (Nat × Nat) :=
+  match attrProps.find? (·.1 == tok) with
+  | some (_, f, sfl) => if sfl ≤ maxSfl then some (acc.1 ||| f, max acc.2 sfl) else none
+  | none => none
+
+/-- the items of the list, in order -/
+def setAttributesL (toks : List String) (maxSfl : Nat) : Option (Nat × Nat) :=
+  toks.foldl (fun acc tok => acc.bind (fun a => attrToken a tok maxSfl)) (some (0, 0))
+
+def setAttributes (profile : String) (maxSfl : Nat) : Option (Nat × Nat) :=
+  if profile = "" then some (0, 0) else setAttributesL (profile.splitOn ",") maxSfl
+
+def hasFlag (flags f : Nat) : Bool := flags &&& f ≠ 0
+
+/-- what a profile attribute enforces, as the base return code of a probe command whose prerequisites (algorithms, curve,
+    commands) are enabled: 0 = works, otherwise the format-one code without parameter/session decoration.
+    1 RSA_Encrypt without padding · 2 Sign(ECDSA, SHA-1) · 3 VerifySignature(ECDSA, SHA-1, wrong signature) ·
+    4 Sign(HMAC, SHA-1) · 5 VerifySignature(HMAC, SHA-1, wrong MAC) · 6 EC_Ephemeral -/
+def attrProbe (flags probe : Nat) : Nat :=
+  if probe = 1 then (if hasFlag flags ATTR_NO_UNPADDED_ENCRYPTION then 0x92 else 0)          -- TPM_RC_SCHEME
+  else if probe = 2 then (if hasFlag flags ATTR_NO_SHA1_SIGNING then 0x83 else 0)              -- TPM_RC_HASH
+  else if probe = 3 then (if hasFlag flags ATTR_NO_SHA1_VERIFICATION then 0x83 else 0x9B)      -- else TPM_RC_SIGNATURE
+  else if probe = 4 then (if hasFlag flags ATTR_NO_SHA1_HMAC_CREATION then 0x83 else 0)
+  else if probe = 5 then (if hasFlag flags ATTR_NO_SHA1_HMAC_VERIFICATION then 0x83 else 0x9B)
+  else if probe = 6 then (if hasFlag flags ATTR_NO_ECC_KEY_DERIVATION then 0x8A else 0)        -- TPM_RC_TYPE
+  else 0
+
 /-! ### StateFormatLevel of a custom profile (`RuntimeProfileSet`) -/
 
 /-- a custom profile: the requested level must be ≥ 2 and ≤ the library's; everything enabled must fit under it -/
